@@ -16,7 +16,7 @@ KINDS = {
     'C04': {'too_many_connections', 'leak_at_quiescence', 'no_checkout_error', 'waiter_not_served', 'waiter_refused', 'client_tasks_still_alive',
             'capacity_lost', 'backend_sessions_exceed', 'idle_client_holds_server'},
     'C10': {'cancel_wrong_target', 'map_entry_after_exit', 'cancel_misdirected',
-            'cancel_without_session', 'cancel_lost', 'cancel_not_sent'},
+            'cancel_without_session', 'cancel_lost', 'cancel_not_sent', 'cancel_after_release', 'cancel_unsolicited'},
 }
 
 GEN_CFGS = {
@@ -26,7 +26,11 @@ GEN_CFGS = {
 }
 
 
-def gen_cfg_text(mode, pool_size, depth, clients=('A', 'B'), actors=('A',), maxmsgs=3, probes_last=False, extras=()):
+ALL_KINDS = ('begin', 'stmt', 'fail', 'set', 'prep', 'copyin', 'copyin2', 'big', 'slow', 'local', 'reset1', 'commit', 'copydone', 'copyfail')
+
+
+def gen_cfg_text(mode, pool_size, depth, clients=('A', 'B'), actors=('A',), maxmsgs=3, probes_last=False, extras=(),
+                 actor_kinds=ALL_KINDS):
     def setof(xs):
         return '{' + ', '.join('"%s"' % x for x in xs) + '}'
     return '''SPECIFICATION GSpec
@@ -43,9 +47,11 @@ CONSTANTS
   Depth = %d
   ProbesLast = %s
   Extras = %s
+  ActorKinds = %s
 INVARIANT Emit
 ''' % (setof(clients), setof(actors), setof([c for c in clients if c not in actors]), pool_size,
-       'TRUE' if mode == 'transaction' else 'FALSE', maxmsgs, depth, 'TRUE' if probes_last else 'FALSE', setof(extras))
+       'TRUE' if mode == 'transaction' else 'FALSE', maxmsgs, depth, 'TRUE' if probes_last else 'FALSE', setof(extras),
+       setof(actor_kinds))
 
 
 def generate(v, name, mode, pool_size, depth, clients=('A', 'B'), actors=('A',), maxmsgs=3, probes_last=False, extras=()):
@@ -85,7 +91,7 @@ def features(sc):
         if op == 'send_vanish':
             actor_sent = True
             f.add('vanish:' + k)
-        if op in ('exit_in_tx', 'early_return', 'idle_tx_timeout', 'checkout_timeout', 'cancel', 'leave', 'reap', 'vanish'):
+        if op in ('exit_in_tx', 'early_return', 'idle_tx_timeout', 'checkout_timeout', 'cancel', 'cancel_down', 'leave', 'reap', 'vanish'):
             f.add(op)
     # session mode: a second client sends while the first one's session (and with it the only connection) is still open
     if sc.get('mode') == 'session':
@@ -159,6 +165,8 @@ def run_model_checks(v, prop, tier):
             ('dev:local_batch_keeps_server', 'MC_PoolCore_dev_local_batch_keeps_server.cfg', False),
             ('dev:reset_clears_dirty', 'MC_PoolCore_dev_reset_clears_dirty.cfg', False),
             ('dev:cleanup_in_copy_reuses', 'MC_PoolCore_dev_cleanup_in_copy_reuses.cfg', False)]
+    if prop == 'C10':
+        runs.append(('dev:cancel_retried_later', 'MC_PoolCore_dev_cancel_retried_later.cfg', False))
     if tier == 'thorough':
         runs.insert(1, ('design_3c', 'MC_PoolCore_design3.cfg', True))
         runs.insert(2, ('design_session', 'MC_PoolCore_session.cfg', True))
@@ -173,7 +181,7 @@ def run_model_checks(v, prop, tier):
                 else:
                     v.tool_error('PoolCore %s: TLC rc=%d %s' % (cfg, res.rc, '; '.join(res.errors()[:2])))
             if name == 'design':
-                never = [a for a, (d, t) in res.coverage.items() if t == 0 and a != 'Init']
+                never = [a for a, (d, t) in res.coverage.items() if t == 0 and a not in ('Init', 'DeliverLate')]   # (DeliverLate: deviation only)
                 v.extra['action_coverage'] = {a: t for a, (d, t) in res.coverage.items()}
                 if never:
                     v.tool_error('PoolCore design run: actions never taken: %s' % never)
@@ -258,6 +266,9 @@ def check(prop, tier, seed):
     scenarios += generate(v, 'tx1v', 'transaction', 1, depth - 1, probes_last=True, extras=('vanish',))
     if prop in ('C02', 'C04'):
         scenarios += generate(v, 'tx1r', 'transaction', 1, depth - 2, extras=('reap',))
+    if prop == 'C10':
+        # cancel requests made while the server's listener is down for a moment (the request is dropped, never kept)
+        scenarios += generate(v, 'tx1c', 'transaction', 1, depth, maxmsgs=1, probes_last=True, extras=('ldown',))
     if prop in ('C01', 'C04', 'C10'):
         scenarios += generate(v, 'sess1', 'session', 1, depth - 1)
     if prop in ('C04', 'C01') or tier == 'thorough':
@@ -270,7 +281,7 @@ def check(prop, tier, seed):
                 'reap'},
         'C04': {'checkout_timeout', 'early_return', 'exit_in_tx', 'handoff', 'idle_tx_timeout', 'leave', 'reap', 'vanish', 'A:local',
                 'vanish:slow', 'vanish:begin', 'vanish:stmt'},
-        'C10': {'cancel'},
+        'C10': {'cancel', 'cancel_down'},
     }[prop]
     n = {'quick': 400, 'thorough': 6000}[tier]
     # witness corpus: behaviours in which some deviation class of PoolCore breaks an invariant (tools/gen_witnesses.py)
